@@ -1005,7 +1005,7 @@ var stlUnicodeMapping = astikit.NewBiMap().
 	Set(byte('\xdd'), "\u215C"). // ⅜
 	Set(byte('\xde'), "\u215D"). // ⅝
 	Set(byte('\xdf'), "\u215E"). // ⅞
-	Set(byte('\xe0'), "\u2126"). // Ohm Ω
+	Set(byte('\xe0'), "\u03A9"). // Ohm Ω (NFD turns U+2126 into U+03A9 before the lookup)
 	Set(byte('\xe1'), "\u00C6"). // Æ
 	Set(byte('\xe2'), "\u0110"). // Đ
 	Set(byte('\xe3'), "\u00AA"). // ª
